@@ -34,13 +34,19 @@ CONSTANTS Kind,         \* "det" | "stress"
           Rates,        \* rates that can be configured (model numbers)
           Insts,        \* instance (node) names
           Tables,       \* names of the harness' rate tables (model rate -> real rate)
-          ExtremeFrom   \* in table "extreme", model rates >= this stand for rates near the
+          ExtremeFrom,  \* in table "extreme", model rates >= this stand for rates near the
                         \* top of the real range; no real ID with a hash at or below their
                         \* threshold can be found, so such h are not enumerated there
+          Profiles,     \* names of settings for the REST of the configuration record that is
+                        \* (re)loaded together with the rate (stress relief: Mode, ActivationLevel,
+                        \* DeactivationLevel, MinimumActivationDuration - usual, equal, inverted,
+                        \* zero ...); the harness owns the concrete values
+          Rejectable    \* the profiles an implementation may legitimately refuse as a whole
 
 ASSUME /\ Kind \in {"det", "stress"}
        /\ H \in Nat /\ Rates \subseteq Nat
        /\ Kind = "det" => 0 \notin Rates   \* rate 0 is outside the quantifier of C10 for the sampler
+       /\ Rejectable \subseteq Profiles
 
 VARIABLES table, h, rate, bound, act
 
@@ -67,12 +73,28 @@ Init == /\ table \in Tables
         /\ act = [name |-> "Init"]
 
 \* DeterministicSampler.Start() of a new sampler object built from the rules /
-\* StressRelief.UpdateFromConfig() (also the reload path, same object)
-Configure(i, N) ==
+\* StressRelief.UpdateFromConfig() (also the reload path, same object).
+\* A (re)configuration is the whole configuration record: the rate N together
+\* with a profile p of the other fields.  C10 lets the kept set depend on the
+\* rate only, so whatever p is, the instance must afterwards report N and
+\* decide with N's threshold.
+Configure(i, N, p) ==
   /\ rate' = [rate EXCEPT ![i] = Stored(N)]
   /\ bound' = [bound EXCEPT ![i] = H \div Stored(N)]
   /\ UNCHANGED <<table, h>>
-  /\ act' = [name |-> "Configure", i |-> i, n |-> N]
+  /\ act' = [name |-> "Configure", i |-> i, n |-> N, p |-> p]
+
+\* An implementation may refuse a questionable record as a whole.  What C10
+\* still demands then is that the rate it reports and the threshold it decides
+\* with stay a pair: both keep their previous values (a never configured
+\* instance keeps everything and reports 1).  Same label as Configure: the
+\* replay accepts either outcome, and nothing in between.
+ConfigureRefused(i, N, p) ==
+  /\ p \in Rejectable
+  /\ rate' = [rate EXCEPT ![i] = IF rate[i] = -1 THEN 1 ELSE rate[i]]
+  /\ bound' = [bound EXCEPT ![i] = IF rate[i] = -1 THEN H ELSE bound[i]]
+  /\ UNCHANGED <<table, h>>
+  /\ act' = [name |-> "Configure", i |-> i, n |-> N, p |-> p]
 
 \* GetSampleRate(traceID): reads rate and bound, changes nothing
 Decide(i) ==
@@ -80,7 +102,7 @@ Decide(i) ==
   /\ UNCHANGED <<table, h, rate, bound>>
   /\ act' = [name |-> "Decide", i |-> i]
 
-Next == \/ \E i \in Insts, N \in Rates : Configure(i, N)
+Next == \/ \E i \in Insts, N \in Rates, p \in Profiles : Configure(i, N, p) \/ ConfigureRefused(i, N, p)
         \/ \E i \in Insts : Decide(i)
 
 Spec == Init /\ [][Next]_vars
@@ -111,6 +133,16 @@ NestedAnswers == \A i, j \in Started : rate[i] <= rate[j] /\ Answer(j).keep => A
 \* C10: asking does not change any answer (every run decides the same)
 AskingIsPure == [][act'.name = "Decide" => \A i \in Insts : Answer(i)' = Answer(i)]_vars
 
+\* C10: after a configuration step the instance answers for the configured rate
+\* (or, for a refusable record, exactly as before / keep-all if it had none)
+ConfigureTakesEffect ==
+  [][act'.name = "Configure" =>
+       \A i \in Insts : i = act'.i =>
+         \/ Answer(i)' = (IF Stored(act'.n) <= 1 THEN [rate |-> 1, keep |-> TRUE]
+                          ELSE [rate |-> Stored(act'.n), keep |-> Keep(h, Stored(act'.n), H)])
+         \/ /\ act'.p \in Rejectable
+            /\ Answer(i)' = (IF rate[i] = -1 THEN [rate |-> 1, keep |-> TRUE] ELSE Answer(i))]_vars
+
 \* reconfiguring one instance never changes another instance's answer
 ConfigureIsLocal ==
   [][act'.name = "Configure" => \A j \in Insts \ {act'.i} : Answer(j)' = Answer(j)]_vars
@@ -123,7 +155,7 @@ InitArith == /\ table = "none"
              /\ bound = [i \in Insts |-> -1]
              /\ act = [name |-> "Init"]
 
-NextArith == \E i \in Insts, N \in Rates : rate[i] = -1 /\ Configure(i, N)
+NextArith == \E i \in Insts, N \in Rates, p \in Profiles : rate[i] = -1 /\ Configure(i, N, p)
 
 SpecArith == InitArith /\ [][NextArith]_vars
 
